@@ -10,7 +10,7 @@
 //! * `sponge-bulk`: random op sequences against an independent duplex sponge, all chunkings.
 use plonky2::field::extension::quadratic::QuadraticExtension;
 use plonky2::field::extension::FieldExtension;
-use plonky2::field::types::{Field, PrimeField64};
+use plonky2::field::types::{Field, Field64, PrimeField64};
 use plonky2::hash::hash_types::{BytesHash, HashOut};
 use plonky2::hash::hashing::PlonkyPermutation;
 use plonky2::hash::keccak::{KeccakHash, KeccakPermutation};
@@ -444,8 +444,10 @@ fn record(args: &[String]) -> anyhow::Result<()> {
             lay += 2;
         }
     }
+    let (nfast, nchains) = carry_events(&mut log, &k, opt_usize(args, "--carry-layers", 48), opt_usize(args, "--carry-chains", 8));
     let events = log.finish();
-    emit(&json!({"kind": "c13-perm-record", "events": events, "perms": perms, "layers": lay, "out": out}));
+    emit(&json!({"kind": "c13-perm-record", "events": events, "perms": perms + nchains, "layers": lay + nfast,
+                 "carry_boundary_layers": nfast, "carry_boundary_chains": nchains, "out": out}));
     Ok(())
 }
 
@@ -562,6 +564,504 @@ fn bulk(args: &[String]) -> anyhow::Result<()> {
     }
     mism.truncate(20);
     emit(&json!({"kind": "c13-perm-bulk", "cases": cases, "fixed_patterns": fixed, "noncanonical_pairs": noncanon, "mismatches": mism}));
+    Ok(())
+}
+
+// ---------------------------------------------------------------------------------------------
+// carry-boundary states of the 160-bit accumulator of `mds_partial_layer_fast`
+// ---------------------------------------------------------------------------------------------
+// Accumulation sites with delayed reduction in hash/poseidon.rs:
+//   * mds_partial_layer_fast(state, r): d_sum: (u128, u32) += state[i] * W_HATS[r][i-1] (i = 1..11, in
+//     this order), then += state[0] * (CIRC[0] + DIAG[0]); reduce_u160.  12 term positions per round,
+//     22 rounds: the ONLY site whose low limb can wrap.
+//   * mds_row_shf (u128 sum of 13 products with constants <= 41: < 2^73, cannot wrap), the
+//     Goldilocks mds_layer (lo + hi << 32 in u128: < 2^73), mds_partial_layer_init (field
+//     operations only): no wrap possible; they are covered by the lane patterns above.
+// For random or saturated lanes the low limb is never *close* to 2^128 when a given term is added,
+// so a carry that is lost only near the boundary is invisible to them.  The states below are
+// constructed from the weights: partial sum before term j = k * 2^128 - rem with rem < 2^64, and
+// term j just above / just below rem.
+const TERMS: usize = 12;
+fn term_lane(t: usize) -> usize {
+    // term position t = 1..=12 -> lane
+    if t <= 11 { t } else { 0 }
+}
+fn term_weights(r: usize) -> [u64; TERMS + 1] {
+    let mut w = [0u64; TERMS + 1];
+    for t in 1..=11 {
+        w[t] = <F as Poseidon>::FAST_PARTIAL_ROUND_W_HATS[r][t - 1];
+    }
+    w[12] = <F as Poseidon>::MDS_MATRIX_CIRC[0] + <F as Poseidon>::MDS_MATRIX_DIAG[0];
+    w
+}
+#[derive(Clone, Copy, Default)]
+struct TermStep {
+    carried: bool,
+    near_carry: bool,    // carried, and the low limb was within 2^64 of wrapping before the term
+    near_nocarry: bool,  // did not carry, and the low limb ended within 2^64 of wrapping
+    tiny_carry: bool,    // carried, and the low limb ended below 2^64
+}
+/// the reference's own bookkeeping of the accumulator on RAW lane values
+fn carry_profile(raw: &St, r: usize) -> [TermStep; TERMS + 1] {
+    let w = term_weights(r);
+    let mut out = [TermStep::default(); TERMS + 1];
+    let mut lo: u128 = 0;
+    let near: u128 = u128::MAX - (u64::MAX as u128);
+    for t in 1..=TERMS {
+        let y = raw[term_lane(t)] as u128 * w[t] as u128;
+        let (res, over) = lo.overflowing_add(y);
+        out[t] = TermStep {
+            carried: over,
+            near_carry: over && lo >= near,
+            near_nocarry: !over && y > 0 && res >= near,
+            tiny_carry: over && res <= u64::MAX as u128,
+        };
+        lo = res;
+    }
+    out
+}
+/// definition of the sparse layer on raw values (mod p)
+fn t_fast_mds(s: &St, r: usize) -> St {
+    let w = term_weights(r);
+    let mut acc: u128 = 0;
+    for t in 1..=TERMS {
+        acc = (acc + (s[term_lane(t)] as u128 % PP) * (w[t] as u128 % PP)) % PP;
+    }
+    let mut o = [0u64; 12];
+    o[0] = acc as u64;
+    for i in 1..12 {
+        let v = <F as Poseidon>::FAST_PARTIAL_ROUND_VS[r][i - 1] as u128 % PP;
+        o[i] = ((s[i] as u128 % PP + (s[0] as u128 % PP) * v) % PP) as u64;
+    }
+    o
+}
+fn real_fast_mds(s: &St, r: usize) -> St {
+    raw(&F::mds_partial_layer_fast(&to_f(s), r))
+}
+
+#[derive(Clone)]
+struct Boundary {
+    r: usize,
+    j: usize,
+    state: St,
+    kind: &'static str,
+    canonical: bool,
+}
+
+/// boundary states for term position j of round r.  `limit` = exclusive bound of lane values
+/// (2^64 for raw calls, p for states that must be reachable inside a permutation).
+fn gen_boundary(r: usize, j: usize, canonical: bool, rr: &mut rand_chacha::ChaCha8Rng, out: &mut Vec<Boundary>) {
+    let w = term_weights(r);
+    let limit: u128 = if canonical { PP } else { 1u128 << 64 };
+    let lane_val = |rr: &mut rand_chacha::ChaCha8Rng, mode: usize| -> u64 {
+        match mode {
+            0 => 0,
+            1 => (limit - 1) as u64,
+            _ => (rr.gen::<u64>() as u128 % limit) as u64,
+        }
+    };
+    let partial_lo = |st: &St, upto: usize| -> u128 {
+        let mut lo: u128 = 0;
+        for t in 1..upto {
+            lo = lo.wrapping_add(st[term_lane(t)] as u128 * w[t] as u128);
+        }
+        lo
+    };
+    let mut push = |st: St, kind: &'static str, out: &mut Vec<Boundary>| out.push(Boundary { r, j, state: st, kind, canonical });
+    let wj = w[j] as u128;
+    let lj = term_lane(j);
+    // mode A: two earlier terms a, b put the partial sum at k * 2^128 - rem, rem < w_b
+    if j >= 3 {
+        let mut found = 0;
+        for attempt in 0..400 {
+            if found >= 4 {
+                break;
+            }
+            let a = 1 + (attempt % (j - 1));
+            let mut b = 1 + ((attempt / (j - 1) + a) % (j - 1));
+            if b == a {
+                b = 1 + (b % (j - 1));
+            }
+            if b == a {
+                continue;
+            }
+            let mut st = [0u64; 12];
+            // other earlier and all later terms: zero / random
+            let others = attempt % 3;
+            for t in 1..=TERMS {
+                if t != a && t != b && t != j {
+                    st[term_lane(t)] = lane_val(rr, if others == 0 { 0 } else { 2 });
+                }
+            }
+            st[term_lane(a)] = lane_val(rr, if attempt % 2 == 0 { 1 } else { 2 });
+            st[term_lane(b)] = 0;
+            st[lj] = 0;
+            let x = partial_lo(&st, j);
+            let num = x.wrapping_neg(); // (k * 2^128 - X) for the smallest k
+            if num == 0 {
+                continue;
+            }
+            let sb = num / w[b] as u128;
+            if sb >= limit {
+                continue;
+            }
+            let rem = num - sb * w[b] as u128;
+            if rem == 0 {
+                continue;
+            }
+            st[term_lane(b)] = sb as u64;
+            let c = (rem + wj - 1) / wj;
+            if c >= limit - 1 {
+                continue;
+            }
+            found += 1;
+            let mut v = st;
+            v[lj] = c as u64;
+            push(v, "A:just-carries", out);
+            v[lj] = (c + 1) as u64;
+            push(v, "A:carries+1", out);
+            v[lj] = (limit - 1) as u64;
+            push(v, "A:carries-max", out);
+            v[lj] = lane_val(rr, 2).max(c as u64);
+            push(v, "A:carries-random", out);
+            v[lj] = (c - 1) as u64;
+            push(v, "A:just-not", out);
+        }
+    }
+    // mode B: term j itself lands the sum just above / just below a multiple of 2^128
+    if j >= 2 && w[j] > (1 << 40) {
+        let mut found = 0;
+        for attempt in 0..400 {
+            if found >= 3 {
+                break;
+            }
+            let mut st = [0u64; 12];
+            for t in 1..=TERMS {
+                if t != j {
+                    let before = t < j;
+                    st[term_lane(t)] = lane_val(rr, if before { if attempt % 4 == 0 { 1 } else { 2 } } else { attempt % 3 });
+                }
+            }
+            let x = partial_lo(&st, j);
+            if x == 0 {
+                continue;
+            }
+            let num = x.wrapping_neg();
+            let c = (num + wj - 1) / wj;
+            if c == 0 || c >= limit {
+                continue;
+            }
+            found += 1;
+            let mut v = st;
+            v[lj] = c as u64;
+            push(v, "B:just-carries", out);
+            v[lj] = (c - 1) as u64;
+            push(v, "B:just-not", out);
+        }
+    }
+}
+
+fn all_boundaries(canonical: bool, per_site_cap: usize) -> Vec<Boundary> {
+    let mut rr = rng(1313 + canonical as u64);
+    let mut v = vec![];
+    for r in 0..N_PARTIAL_ROUNDS {
+        for j in 2..=TERMS {
+            let mut site = vec![];
+            gen_boundary(r, j, canonical, &mut rr, &mut site);
+            site.truncate(per_site_cap);
+            v.extend(site);
+        }
+    }
+    v
+}
+
+// ---- inversion (reference arithmetic) so that a boundary state occurs INSIDE a permutation ----
+fn t_pow(a: u64, mut e: u64) -> u64 {
+    let mut base = (a as u128 % PP) as u64;
+    let mut acc = 1u64;
+    while e > 0 {
+        if e & 1 == 1 {
+            acc = t_mul(acc, base);
+        }
+        base = t_mul(base, base);
+        e >>= 1;
+    }
+    acc
+}
+fn t_inv(a: u64) -> u64 {
+    t_pow(a, P - 2)
+}
+fn t_sub(a: u64, b: u64) -> u64 {
+    ((a as u128 % PP + PP - b as u128 % PP) % PP) as u64
+}
+fn t_add(a: u64, b: u64) -> u64 {
+    ((a as u128 % PP + b as u128 % PP) % PP) as u64
+}
+/// 7^-1 mod (p - 1)
+fn inv7_exp() -> u64 {
+    let m = (P - 1) as i128;
+    let (mut old_r, mut rr) = (7i128, m);
+    let (mut old_s, mut ss) = (1i128, 0i128);
+    while rr != 0 {
+        let q = old_r / rr;
+        (old_r, rr) = (rr, old_r - q * rr);
+        (old_s, ss) = (ss, old_s - q * ss);
+    }
+    assert_eq!(old_r, 1);
+    (((old_s % m) + m) % m) as u64
+}
+fn mat_inv(m: &[Vec<u64>]) -> Vec<Vec<u64>> {
+    let n = m.len();
+    let mut a: Vec<Vec<u64>> = m.iter().map(|row| row.iter().map(|x| (*x as u128 % PP) as u64).collect()).collect();
+    let mut inv: Vec<Vec<u64>> = (0..n).map(|i| (0..n).map(|j| (i == j) as u64).collect()).collect();
+    for col in 0..n {
+        let piv = (col..n).find(|&r| a[r][col] != 0).expect("singular matrix");
+        a.swap(col, piv);
+        inv.swap(col, piv);
+        let d = t_inv(a[col][col]);
+        for k in 0..n {
+            a[col][k] = t_mul(a[col][k], d);
+            inv[col][k] = t_mul(inv[col][k], d);
+        }
+        for r in 0..n {
+            if r != col && a[r][col] != 0 {
+                let f_ = a[r][col];
+                for k in 0..n {
+                    a[r][k] = t_sub(a[r][k], t_mul(f_, a[col][k]));
+                    inv[r][k] = t_sub(inv[r][k], t_mul(f_, inv[col][k]));
+                }
+            }
+        }
+    }
+    inv
+}
+struct Inverter {
+    d7: u64,
+    init_inv: Vec<Vec<u64>>, // inverse of the 11 x 11 initial matrix (row-vector convention)
+    mds_inv: Vec<Vec<u64>>,  // inverse of the 12 x 12 MDS matrix (column-vector convention)
+    fast_den_inv: Vec<u64>,  // (M00 - sum v_i w_i)^-1 per round
+}
+impl Inverter {
+    fn new(k: &Consts) -> Self {
+        let init: Vec<Vec<u64>> = (0..11).map(|r| (0..11).map(|c| <F as Poseidon>::FAST_PARTIAL_ROUND_INITIAL_MATRIX[r][c]).collect()).collect();
+        let mds: Vec<Vec<u64>> = (0..12).map(|r| (0..12).map(|c| k.circ[(c + 12 - r) % 12] + if r == c { k.diag[r] } else { 0 }).collect()).collect();
+        let fast_den_inv = (0..N_PARTIAL_ROUNDS)
+            .map(|r| {
+                let w = term_weights(r);
+                let mut den = w[12] % P;
+                for i in 1..12 {
+                    den = t_sub(den, t_mul(<F as Poseidon>::FAST_PARTIAL_ROUND_VS[r][i - 1], w[i]));
+                }
+                t_inv(den)
+            })
+            .collect();
+        Self { d7: inv7_exp(), init_inv: mat_inv(&init), mds_inv: mat_inv(&mds), fast_den_inv }
+    }
+    /// input of `partial_rounds` such that the state handed to mds_partial_layer_fast(_, r) is `target`
+    fn partial_input(&self, target: &St, r: usize) -> St {
+        let mut cur = can(target);
+        for i in (0..=r).rev() {
+            cur[0] = t_pow(t_sub(cur[0], <F as Poseidon>::FAST_PARTIAL_ROUND_CONSTANTS[i]), self.d7);
+            if i > 0 {
+                // invert mds_partial_layer_fast(_, i - 1)
+                let w = term_weights(i - 1);
+                let mut num = cur[0];
+                for l in 1..12 {
+                    num = t_sub(num, t_mul(cur[l], w[l]));
+                }
+                let s0 = t_mul(num, self.fast_den_inv[i - 1]);
+                let mut prev = [0u64; 12];
+                prev[0] = s0;
+                for l in 1..12 {
+                    prev[l] = t_sub(cur[l], t_mul(s0, <F as Poseidon>::FAST_PARTIAL_ROUND_VS[i - 1][l - 1]));
+                }
+                cur = prev;
+            }
+        }
+        // invert mds_partial_layer_init: res[c] = sum_r in[r] * INIT[r-1][c-1]
+        let mut prev = [0u64; 12];
+        prev[0] = cur[0];
+        for r_ in 1..12 {
+            let mut acc = 0u64;
+            for c in 1..12 {
+                acc = t_add(acc, t_mul(cur[c], self.init_inv[c - 1][r_ - 1]));
+            }
+            prev[r_] = acc;
+        }
+        for i in 0..12 {
+            prev[i] = t_sub(prev[i], <F as Poseidon>::FAST_PARTIAL_FIRST_ROUND_CONSTANT[i]);
+        }
+        prev
+    }
+    /// permutation input whose state after the first four (textbook) full rounds is `mid`
+    fn perm_input(&self, k: &Consts, mid: &St) -> St {
+        let mut cur = can(mid);
+        for r in (0..4).rev() {
+            let mut pre = [0u64; 12];
+            for i in 0..12 {
+                let mut acc = 0u64;
+                for c in 0..12 {
+                    acc = t_add(acc, t_mul(self.mds_inv[i][c], cur[c]));
+                }
+                pre[i] = t_sub(t_pow(acc, self.d7), k.rc[12 * r + i]);
+            }
+            cur = pre;
+        }
+        cur
+    }
+}
+/// `partial_rounds` re-assembled from the real trait methods, returning the RAW state handed to
+/// mds_partial_layer_fast in round r (what the accumulator really sees)
+fn real_state_before_fast(mid: &St, r: usize) -> St {
+    let mut st = to_f(mid);
+    <F as Poseidon>::partial_first_constant_layer::<F, 1>(&mut st);
+    st = <F as Poseidon>::mds_partial_layer_init::<F, 1>(&st);
+    for i in 0..=r {
+        st[0] = <F as Poseidon>::sbox_monomial::<F, 1>(st[0]);
+        st[0] = unsafe { st[0].add_canonical_u64(<F as Poseidon>::FAST_PARTIAL_ROUND_CONSTANTS[i]) };
+        if i == r {
+            break;
+        }
+        st = F::mds_partial_layer_fast(&st, i);
+    }
+    raw(&st)
+}
+
+/// events for TLC: a handful of real sparse layers on boundary states, and textbook chains of
+/// permutations that pass through a boundary state
+fn carry_events(log: &mut NdJson, k: &Consts, n_fast: usize, n_chains: usize) -> (usize, usize) {
+    let bs = all_boundaries(false, 12);
+    let step = (bs.len() / n_fast.max(1)).max(1);
+    let off = seed() as usize % step;
+    let mut nf = 0;
+    for b in bs.iter().skip(off).step_by(step).take(n_fast) {
+        let w = term_weights(b.r);
+        let mut wt = vec![limbs(w[12])];
+        for t in 1..12 {
+            wt.push(limbs(w[t]));
+        }
+        let v: Vec<Value> = (0..11).map(|i| limbs(<F as Poseidon>::FAST_PARTIAL_ROUND_VS[b.r][i])).collect();
+        match guarded(|| real_fast_mds(&b.state, b.r)) {
+            Ok(o) => log.put(&json!({"op": "fastmds", "what": "mds_partial_layer_fast", "r": b.r, "term": b.j, "kind": b.kind,
+                                      "in": sv(&b.state), "out": sv(&o), "wt": wt, "v": v})),
+            Err(m) => log.put(&json!({"op": "panic", "what": "mds_partial_layer_fast", "in": sv(&b.state), "msg": m})),
+        }
+        nf += 1;
+    }
+    let inv = Inverter::new(k);
+    let cs = all_boundaries(true, 12);
+    let cs: Vec<&Boundary> = cs.iter().filter(|b| b.kind == "A:just-carries" || b.kind == "B:just-carries").collect();
+    let step = (cs.len() / n_chains.max(1)).max(1);
+    let mut nc = 0;
+    for b in cs.iter().skip(off % step).step_by(step).take(n_chains) {
+        let mid = inv.partial_input(&b.state, b.r);
+        let input = inv.perm_input(k, &mid);
+        record_one(log, k, &input, None, false);
+        nc += 1;
+    }
+    (nf, nc)
+}
+
+/// `carry-boundary`: all boundary states through the real routines against the reference, with the
+/// vacuity guard (reference bookkeeping: which sites really carry near the boundary)
+fn carry_boundary(_args: &[String]) -> anyhow::Result<()> {
+    let k = load_consts()?;
+    let inv = Inverter::new(&k);
+    let mut mism: Vec<Value> = vec![];
+    let mut cases = 0u64;
+    // coverage[r][j] bit flags: 1 near-carry, 2 near-no-carry, 4 tiny carry (direct); 8 / 16 inside a permutation
+    let mut cov = vec![[0u8; TERMS + 1]; N_PARTIAL_ROUNDS];
+    // (a) direct calls, raw (possibly non-canonical) lanes
+    let direct = all_boundaries(false, 64);
+    for b in &direct {
+        let prof = carry_profile(&b.state, b.r);
+        let ts = prof[b.j];
+        cov[b.r][b.j] |= (ts.near_carry as u8) | ((ts.near_nocarry as u8) << 1) | ((ts.tiny_carry as u8) << 2);
+        cases += 1;
+        let want = t_fast_mds(&b.state, b.r);
+        match guarded(|| can(&real_fast_mds(&b.state, b.r))) {
+            Ok(got) if got == want => {}
+            other => {
+                if mism.len() < 20 {
+                    mism.push(json!({"routine": "mds_partial_layer_fast", "round": b.r, "term": b.j, "kind": b.kind,
+                                     "input": b.state.to_vec(), "got": format!("{:?}", other), "expected": want.to_vec()}));
+                }
+            }
+        }
+    }
+    // (b) inside partial_rounds / poseidon: canonical boundary states, earlier rounds inverted
+    let inside = all_boundaries(true, 10);
+    let mut inside_hit = 0u64;
+    for b in &inside {
+        let mid = inv.partial_input(&b.state, b.r);
+        let input = inv.perm_input(&k, &mid);
+        // what the accumulator really sees in the real run
+        let seen = real_state_before_fast(&mid, b.r);
+        let ts = carry_profile(&seen, b.r)[b.j];
+        if can(&seen) == can(&b.state) {
+            inside_hit += 1;
+        }
+        cov[b.r][b.j] |= ((ts.near_carry as u8) << 3) | ((ts.near_nocarry as u8) << 4);
+        cases += 1;
+        let layers = t_layers(&k, &input);
+        let want_mid = layers.2[3];
+        let want_after = layers.2[25];
+        let want_out = layers.2[29];
+        let res = guarded(|| {
+            let mut st = to_f(&mid);
+            let mut ctr = 4;
+            F::partial_rounds(&mut st, &mut ctr);
+            let mut sn = to_f(&mid);
+            let mut ctr2 = 4;
+            F::partial_rounds_naive(&mut sn, &mut ctr2);
+            (can(&raw(&st)), can(&raw(&sn)), can(&real_poseidon(&input)), can(&real_permute(&input)))
+        });
+        let mut bad = vec![];
+        if want_mid != can(&mid) {
+            bad.push("harness inversion (reference disagrees with itself)");
+        }
+        match &res {
+            Ok((pr, prn, pos, perm)) => {
+                if *pr != want_after {
+                    bad.push("partial_rounds");
+                }
+                if *prn != want_after {
+                    bad.push("partial_rounds_naive");
+                }
+                if *pos != want_out {
+                    bad.push("poseidon");
+                }
+                if *perm != want_out {
+                    bad.push("PoseidonPermutation::permute");
+                }
+            }
+            Err(_) => bad.push("panic"),
+        }
+        if !bad.is_empty() && mism.len() < 20 {
+            mism.push(json!({"routine": bad, "round": b.r, "term": b.j, "kind": b.kind, "input": input.to_vec(),
+                             "state_before_partial_rounds": mid.to_vec(), "boundary_state": b.state.to_vec(),
+                             "got": format!("{:?}", res), "expected": want_out.to_vec()}));
+        }
+    }
+    // vacuity guard: every site must have been hit near the boundary, carrying and not carrying
+    let mut uncovered = vec![];
+    for r in 0..N_PARTIAL_ROUNDS {
+        for j in 2..=TERMS {
+            let c = cov[r][j];
+            let mut miss = vec![];
+            if c & 1 == 0 { miss.push("direct near-carry"); }
+            if c & 2 == 0 { miss.push("direct near-no-carry"); }
+            if c & 4 == 0 { miss.push("direct carry with tiny result"); }
+            if c & 8 == 0 { miss.push("in-permutation near-carry"); }
+            if c & 16 == 0 { miss.push("in-permutation near-no-carry"); }
+            if !miss.is_empty() {
+                uncovered.push(json!({"round": r, "term": j, "missing": miss}));
+            }
+        }
+    }
+    emit(&json!({"kind": "c13-carry-boundary", "cases": cases, "direct_states": direct.len(), "in_permutation_states": inside.len(),
+                 "in_permutation_exact_hits": inside_hit, "sites": N_PARTIAL_ROUNDS * (TERMS - 1),
+                 "uncovered": uncovered, "mismatches": mism}));
     Ok(())
 }
 
@@ -1181,6 +1681,7 @@ fn main() -> std::process::ExitCode {
     vh::util::run_main(|cmd, rest| match cmd {
         "perm-record" => record(rest),
         "perm-bulk" => bulk(rest),
+        "carry-boundary" => carry_boundary(rest),
         "sponge-replay" => sponge_replay(rest),
         "sponge-bulk" => sponge_bulk(rest),
         other => Err(anyhow::anyhow!("unknown command {other}")),
